@@ -23,6 +23,10 @@ DOCS = [
 URI_DIRS = ["w", "w/my%20project", "w/caf%C3%A9", "w/a+b/c%23", "w/%E6%97%A5%E6%9C%AC"]
 
 
+BAD_PARAMS = [{}, {"textDocument": 5}, None, [], {"textDocument": {"uri": 7}}, {"textDocument": {}}, "x",
+              {"textDocument": {"uri": "not a uri"}}]
+
+
 def uri_str(uid, is_file):
     if not is_file:
         return "untitled:Untitled-%d" % uid
@@ -38,11 +42,17 @@ def to_real(m, texts):
         return lspclient.did_change(uri_str(m[1], m[2]), m[3], [texts[d] for d in m[4]])
     if k == "S":
         return lspclient.sem_tokens(m[1], uri_str(m[2], m[3]))
+    if k == "X":
+        return {"jsonrpc": "2.0", "method": "textDocument/didClose", "params": {"textDocument": {"uri": uri_str(m[1], m[2])}}}
+    if k == "B":
+        # a request of an implemented method whose parameters do not have the method's shape
+        return {"jsonrpc": "2.0", "id": m[1], "method": "textDocument/semanticTokens/full", "params": BAD_PARAMS[m[2] % len(BAD_PARAMS)]}
     if k == "Q":
         return {"jsonrpc": "2.0", "id": m[1], "method": m[2], "params": {"textDocument": {"uri": uri_str(1, True)},
                                                                         "position": {"line": 0, "character": 0}}}
     if k == "N":
-        return {"jsonrpc": "2.0", "method": m[1], "params": {}}
+        # (implemented methods appear here too, with parameters that do not have their shape: nothing is done for them)
+        return {"jsonrpc": "2.0", "method": m[1], "params": BAD_PARAMS[m[2] % len(BAD_PARAMS)] if len(m) > 2 else {}}
     if k == "A":
         return {"jsonrpc": "2.0", "id": m[1], "result": None}
     raise ValueError(m)
@@ -58,6 +68,10 @@ def to_model(m, clean):
         return "C %d %d %d %s" % (m[1], 1 if m[2] else 0, m[3], ",".join(enc(d) for d in m[4]) if m[4] else "-")
     if k == "S":
         return "S %d %d %d" % (m[1], m[2], 1 if m[3] else 0)
+    if k == "X":
+        return "X %d %d" % (m[1], 1 if m[2] else 0)
+    if k == "B":
+        return "B %d" % m[1]
     if k == "Q":
         return "Q %d" % m[1]
     if k == "N":
